@@ -133,6 +133,17 @@ def rendered(ctx, case):
     steps = [0, 40, 500000, 61000000, 3700000000]          # microseconds
     t = 5000000
     lines = ['[%d.%03d] <%s>  -> wl_display@1.get_registry(new id wl_registry@2)' % (t // 1000, t % 1000, c) for c in ('1', '2')]
+    if first_body == 'reuse':
+        # object ids are recycled: id 3 is a wl_a, is deleted, and comes back as a wl_b (what `wl_surface@4a` ... `wl_region@4b` is in a real session);
+        # the filter is asked about both holders of the id, in this order, any number of times
+        script = [' -> wl_registry@2.bind(1, "wl_a", 1, new id [unknown]@3)', 'wl_a@3.poke(wl_registry@2, nil)', 'wl_display@1.delete_id(3)',
+                  ' -> wl_registry@2.bind(2, "wl_b", 1, new id [unknown]@3)', 'wl_b@3.poke(wl_registry@2, nil)', ' -> wl_b@3.poke(wl_b@3, nil)']
+        rep = [ctx.choose([1, 2], 'repeat%d' % j) if j in (1, 4) else 1 for j in range(len(script))]
+        for j, body in enumerate(script):
+            for _ in range(rep[j]):
+                t += steps[(j + n) % 3]
+                lines.append('[%d.%03d] <1> %s' % (t // 1000, t % 1000, body))
+        n = 0
     for k in range(n):
         body = pool[first_body] if (k == 0 and first_body is not None) else ctx.choose(pool, 'line%d' % k)
         t += ctx.choose(steps, 'step%d' % k)
@@ -157,7 +168,8 @@ def rendered(ctx, case):
             arrival.append(per[nm].pop(0))
     want = []
     for m in arrival:
-        if flt.matches(m):
+        # the oracle asks a freshly parsed matcher about every message (a matcher's verdict does not depend on what it was asked before: C05)
+        if matcher.parse(ftext).simplify().matches(m):
             o2 = RecStream()
             m.show(Output(False, True, o2, RecStream()))
             want += o2.items
@@ -189,6 +201,7 @@ def obligations(tier):
                         cases.append((pre, sel, cmd, (closed, 1 - closed), 10 + closed))
     bounds = 'records <= 3, 2 connections, selection none/A/B (selected connection possibly closed), optional command (filter / connection A / B / all), 1-%d arrivals; verdicts of all leaves symbolic' % max(len(a) for a in arrs)
     rcases = [(k, f, b) for k in ((2, 3) if tier == 'quick' else (2, 3, 4)) for f in ('*', 'wl_registry.global', '! wl_registry.global', 'B:', 'wl_a') for b in range(4)]
+    rcases += [(k, f, 'reuse') for k in (0, 1) for f in ('wl_a', 'wl_b', '! wl_a', 'wl_a.poke, wl_registry', '3a', '@3b.poke', 'wl_*.poke(wl_b)')]
     return [Ob('live-view-rendered', 'symx', 'nothing stubbed: streams with identical consecutive lines, time steps 0 .. > 1 h, two connections, real matchers as filter: shown lines = matching messages, each once, in order',
                FUNCS + ['core.wl.message:Message.show', 'core.output.output:Output.show', 'backends.libwayland_debug_output.parse:into_sink'],
                '<= %d further lines from a pool of 4 x 5 time steps x 2 connections (exhaustive over the choices), 5 filters' % (3 if tier == 'quick' else 4), rendered, cases=rcases),
@@ -196,5 +209,5 @@ def obligations(tier):
                stubs=['abstract leaves', 'Message.show stubbed', 'matcher.parse stubbed inside the filter command']),
             Ob('commands-then-arrivals', 'symx', 'filter and breakpoint commands with real matcher texts interleaved (C12\'s real-parser obligation): after every command a message that arrives is shown iff the accumulated FILTER selects it, whatever was given to `breakpoint`',
                FUNCS + ['core.matcher:parse', 'core.matcher:join'], 'all sequences of <= %d commands from 2 commands x the C12 text pool, also after -f / -b matchers given at start-up' % (3 if tier == 'quick' else 4), __import__('harness.c12', fromlist=['real_sequences']).real_sequences,
-               cases=([2, 3] if tier == 'quick' else [2, 3, 4]) + __import__('harness.c12', fromlist=['startup_cases']).startup_cases(tier)),
+               cases=__import__('harness.c12', fromlist=['seq_cases']).seq_cases(tier)),
             Ob('live-view-step-reachable', 'symx', 'reachability twin', FUNCS, bounds, twin, cases=[((0,), None, 'filter', (0, 1))], expect_cex=True)]
